@@ -164,6 +164,7 @@ def check(case, mon, ctx):
         mon.violation('merge-raises', {'parts': parts, 'exception': repr(e)[:200]})
         return
     mon.count('merges_checked')
+    mon.observe('merged text', [t, int(np.asarray(l).shape[0])])
     info = {'parts': parts}
     ovs = check_steps(parts, t, list(ctx.log), mon, info)
     if ovs is None:
